@@ -266,16 +266,16 @@ type verifC08Range struct {
 }
 
 var verifC08Ranges = []verifC08Range{
-	{2, true, 2},                           // one slot
-	{2, true, 3},                           // two slots
-	{5, true, 4},                           // reversed: empty
-	{0, false, 0},                          // default window (100 slots)
-	{431999, true, 432000},                 // crosses an epoch boundary
-	{432000, true, 0},                      // reversed across one epoch boundary
-	{864000, true, 0},                      // reversed across two epoch boundaries
-	{18446744073709551566, false, 0},       // start+100 overflows: window wraps to [2^64-50, 49]
+	{2, true, 2},                     // one slot
+	{2, true, 3},                     // two slots
+	{5, true, 4},                     // reversed: empty
+	{0, false, 0},                    // default window (100 slots)
+	{431999, true, 432000},           // crosses an epoch boundary
+	{432000, true, 0},                // reversed across one epoch boundary
+	{864000, true, 0},                // reversed across two epoch boundaries
+	{18446744073709551566, false, 0}, // start+100 overflows: window wraps to [2^64-50, 49]
 	{18446744073709551615, true, 18446744073709551615}, // last slot only (slot++ wraps)
-	{0, true, 1 << 62},                     // very large window
+	{0, true, 1 << 62}, // very large window
 }
 
 func verifC08BoolPtr(name string) *bool {
